@@ -1899,6 +1899,26 @@ func (c *Ctx) attrNamePrefixes() (map[string]string, string, string) {
 				}
 			}
 		}
+		// or plain concatenation: prefix + <number as decimal text>
+		allInstrs(f, func(in ssa.Instruction) {
+			b, ok := in.(*ssa.BinOp)
+			if !ok || b.Op != token.ADD || src != nil {
+				return
+			}
+			if bt, ok := b.Type().Underlying().(*types.Basic); !ok || bt.Info()&types.IsString == 0 {
+				return
+			}
+			ex, ok := b.X.(*ssa.Extract)
+			if !ok || ex.Index != 0 {
+				return
+			}
+			if call, ok := b.Y.(*ssa.Call); ok {
+				switch calleeName(&call.Call) {
+				case "strconv.FormatUint", "strconv.Itoa", "strconv.FormatInt":
+					src = ex.Tuple
+				}
+			}
+		})
 	}
 	if src == nil {
 		return nil, pos, "the prefix of fmt.Sprintf(\"%s%d\", prefix, number) is not result #0 of a table lookup or of a function of the quality"
